@@ -2,6 +2,9 @@ import GeoVerif.Model.GeodLengths
 import GeoVerif.Series.GeodSeries
 import GeoVerif.Series.GeodTrig
 import GeoVerif.Spec.RealInst
+import GeoVerif.Model.GeodLine
+import GeoVerif.Proofs.GeodLine
+import Mathlib.Tactic.LinearCombination
 import Mathlib.Tactic.Ring
 /-!
 # C03 — reduced length, geodesic scales, area: algebraic identities and table certificates
@@ -106,5 +109,73 @@ theorem c4_table : checkC4Expansion = true := by decide +kernel
     The factor `e′² − k² sin²σ` has lowest-order part `4(n − ε sin²σ) ≠ 0` and the coefficient ring is an integral
     domain, so this relation alone also determines the first factor modulo total degree `N`. -/
 theorem c4_relation : checkC4 = true := by decide +kernel
+
+
+/-! ### the two implementations of reduced length and geodesic scale agree
+
+`GeodesicLine::GenPosition` (direct problem, `Model/GeodLine.lean`) and `Geodesic::Lengths` (inverse problem,
+`Model/GeodLengths.lean`) are separate code; over `ℝ` they compute the same `s12`, `m12`, `M12`, `M21`. -/
+
+section LineVsLengths
+open GeoVerif.GeodLine
+
+/-- for a line whose series members are those `LineInit` computes from `eps` (`hA1 … hB2`, `hk`), in arc mode (so that
+    `B12` is the direct series at `σ2`), at a non-degenerate end point: the outputs of `GenPosition` equal those of
+    `Lengths` evaluated on the same arc (`σ12 = a12·degree`, the same `(ssig2, csig2, dn2)`), with `cos β_i` related to
+    the arc by `cos²β = 1 − cos²α0 sin²σ`.  `GenPosition` uses `k²(sin²σ2 − sin²σ1)` where `Lengths` uses
+    `e′²(cos²β1 − cos²β2)`, and the kernel value `cos σ12` where `Lengths` uses `cos σ1 cos σ2 + sin σ1 sin σ2`. -/
+theorem line_lengths_agree (L : Line ℝ) (ep2 eps a12 sk ck cbet1 cbet2 : ℝ) (un : Bool)
+    (hA1 : L.A1m1 = a1m1f eps) (hC1 : L.C1a = c1f eps) (hA2 : L.A2m1 = a2m1f eps) (hC2 : L.C2a = c2f eps)
+    (hB1 : L.B11 = sinCosSeries true L.ssig1 L.csig1 L.C1a) (hB2 : L.B21 = sinCosSeries true L.ssig1 L.csig1 L.C2a)
+    (hk : L.k2 = L.calp0 ^ 2 * ep2) (h1 : L.ssig1 ^ 2 + L.csig1 ^ 2 = 1)
+    (hnd : RealLike.hypot L.salp0 (L.calp0 * (L.csig1 * ck - L.ssig1 * sk)) ≠ 0)
+    (hb1 : cbet1 ^ 2 = 1 - (L.calp0 * L.ssig1) ^ 2)
+    (hb2 : cbet2 ^ 2 = 1 - (L.calp0 * (L.ssig1 * ck + L.csig1 * sk)) ^ 2) :
+    let P := genPosition L true a12 sk ck un
+    let dn2 := Real.sqrt (1 + L.k2 * P.ssig2 ^ 2)
+    let R := lengths ep2 eps (a12 * degree) L.ssig1 L.csig1 L.dn1 P.ssig2 P.csig2 dn2 cbet1 cbet2 true
+    P.s12 = L.b * R.s12b ∧ P.m12 = L.b * R.m12b ∧ P.M12 = R.M12 ∧ P.M21 = R.M21 := by
+  intro P dn2 R
+  have e1 (x : ℝ) : (arcOf L true x sk ck).2.1 = sk := by unfold arcOf; simp
+  have e2 (x : ℝ) : (arcOf L true x sk ck).2.2.1 = ck := by unfold arcOf; simp
+  have e0 (x : ℝ) : (arcOf L true x sk ck).1 = x * degree := by unfold arcOf; simp
+  have hs2 : P.ssig2 = L.ssig1 * ck + L.csig1 * sk := by
+    show L.ssig1 * (arcOf L true a12 sk ck).2.2.1 + L.csig1 * (arcOf L true a12 sk ck).2.1 = _
+    rw [e1, e2]
+  have hc2 : P.csig2 = L.csig1 * ck - L.ssig1 * sk := by
+    show (if RealLike.eqb _ _ = true then L.tiny else L.csig1 * (arcOf L true a12 sk ck).2.2.1 - L.ssig1 * (arcOf L true a12 sk ck).2.1) = _
+    simp only [eqb_real, lit_real, Nat.cast_zero, decide_eq_true_eq, e1, e2]
+    rw [if_neg (by exact hnd)]
+  have hnd' : (RealLike.hypot L.salp0 (L.calp0 * (L.csig1 * ck - L.ssig1 * sk)) = 0) = False := eq_false hnd
+  have key1 : L.csig1 * (L.csig1 * ck - L.ssig1 * sk) + L.ssig1 * (L.ssig1 * ck + L.csig1 * sk) = ck := by
+    linear_combination ck * h1
+  have key2 : L.k2 * (L.ssig1 * ck + L.csig1 * sk - L.ssig1) * (L.ssig1 * ck + L.csig1 * sk + L.ssig1)
+      = ep2 * (cbet1 - cbet2) * (cbet1 + cbet2) := by
+    rw [hk]; linear_combination (-ep2) * hb1 + ep2 * hb2
+  refine ⟨?_, ?_, ?_, ?_⟩
+  · simp only [R, dn2, hs2, hc2]
+    simp only [P, genPosition, lengths, j12WithDistance, e0, e1, e2, Bool.true_or, if_true, eqb_real, lit_real, Nat.cast_zero, decide_eq_true_eq, hnd', if_false, ← hA1, ← hC1, ← hA2, ← hC2, hB1, hB2, Nat.cast_one, sq_real, sqrt_real]
+    ring
+  · simp only [R, dn2, hs2, hc2]
+    simp only [P, genPosition, lengths, j12WithDistance, e0, e1, e2, Bool.true_or, if_true, eqb_real, lit_real, Nat.cast_zero, decide_eq_true_eq, hnd', if_false, ← hA1, ← hC1, ← hA2, ← hC2, hB1, hB2, Nat.cast_one, sq_real, sqrt_real]
+    try ring
+  · simp only [R, dn2, hs2, hc2]
+    simp only [P, genPosition, lengths, j12WithDistance, e0, e1, e2, Bool.true_or, if_true, eqb_real, lit_real, Nat.cast_zero, decide_eq_true_eq, hnd', if_false, ← hA1, ← hC1, ← hA2, ← hC2, hB1, hB2, Nat.cast_one, sq_real, sqrt_real]
+    rw [key2, key1]
+  · simp only [R, dn2, hs2, hc2]
+    simp only [P, genPosition, lengths, j12WithDistance, e0, e1, e2, Bool.true_or, if_true, eqb_real, lit_real, Nat.cast_zero, decide_eq_true_eq, hnd', if_false, ← hA1, ← hC1, ← hA2, ← hC2, hB1, hB2, Nat.cast_one, sq_real, sqrt_real]
+    rw [key2, key1]
+
+/-- non-vacuity: the equator of the unit sphere (`Proofs.GeodLine.exLine`), a quarter circuit -/
+example : let L := GeoVerif.Proofs.GeodLine.exLine
+    L.A1m1 = a1m1f 0 ∧ L.C1a = c1f 0 ∧ L.A2m1 = a2m1f 0 ∧ L.C2a = c2f 0 ∧
+    L.B11 = sinCosSeries true L.ssig1 L.csig1 L.C1a ∧ L.B21 = sinCosSeries true L.ssig1 L.csig1 L.C2a ∧
+    L.k2 = L.calp0 ^ 2 * 0 ∧ L.ssig1 ^ 2 + L.csig1 ^ 2 = 1 ∧
+    RealLike.hypot L.salp0 (L.calp0 * (L.csig1 * 0 - L.ssig1 * 1)) ≠ 0 ∧
+    (1 : ℝ) ^ 2 = 1 - (L.calp0 * L.ssig1) ^ 2 ∧ (1 : ℝ) ^ 2 = 1 - (L.calp0 * (L.ssig1 * 0 + L.csig1 * 1)) ^ 2 := by
+  intro L
+  refine ⟨rfl, rfl, rfl, rfl, rfl, rfl, ?_, ?_, ?_, ?_, ?_⟩ <;> simp [L, GeoVerif.Proofs.GeodLine.exLine, hypot_real]
+
+end LineVsLengths
 
 end GeoVerif.Props.C03
